@@ -127,12 +127,16 @@ Definition guard_table : list (string * list string) := [
   (* internal/dhcpd/v6_unix.go: ipAddrs is the occupancy map of leases, updated
      by addLease / leaseRemoveSwapByIndex together with leases under leasesLock *)
   ("dhcpd.v6Server.ipAddrs", ["dhcpd.v6Server.leasesLock"]);
-  (* NOT listed, although the source declares a guard: safesearch.Default.engine
-     ("mu protects engine") and ipset.manager.{ipv4Conn,ipv6Conn}: they are
-     also initialised by helper methods called from their constructors
-     (NewDefault -> resetEngine, newManager -> dialNetfilter) on the object
-     that is not yet published; the translator only recognises a fresh object
-     inside the allocating function and would report those initialisations. *)
+  (* internal/filtering/safesearch/safesearch.go: "mu protects engine";
+     internal/ipset/ipset_linux.go: "mu protects all properties below" (the two
+     netfilter connections).  Their constructors initialise these fields
+     through helper methods (NewDefault -> resetEngine, newManagerWithDialer ->
+     dialNetfilter / parseIpsetConfig -> ipsets -> ipsetProps) on the object
+     that is not published yet; the translator follows an unpublished receiver
+     into such helpers (round 3) and skips those initialisations only there. *)
+  ("filtering/safesearch.Default.engine", ["filtering/safesearch.Default.mu"]);
+  ("ipset.manager.ipv4Conn", ["ipset.manager.mu"]);
+  ("ipset.manager.ipv6Conn", ["ipset.manager.mu"]);
   (* internal/filtering/rulelist/{engine,textengine}.go: "mu protects engine and storage" *)
   ("filtering/rulelist.Engine.engine", ["filtering/rulelist.Engine.mu"]);
   ("filtering/rulelist.Engine.storage", ["filtering/rulelist.Engine.mu"]);
